@@ -4,10 +4,11 @@
   `isBilinear` = `is_linear_expression` and the verdicts of LinearForm / BilinearForm), using
   Model/Subst.lean, Model/Calc.lean (operator constructors) and Model/RingEq.lean (comparison).
   Helpers: Lemmas/Linear.lean, Lemmas/LinearSound.lean, Lemmas/LinearProduct.lean (product arguments,
-  sums of integrals, absent arguments, the one-tag variant), Lemmas/RingEq.lean,
+  sums of integrals, absent arguments, the one-tag variant), Lemmas/LinearSum.lean (verdict per
+  integral, the lumped and the term-wise variants), Lemmas/RingEq.lean,
   Sem/Instances.lean (polynomial DRing).
 -/
-import SympdeModel.Lemmas.LinearProduct
+import SympdeModel.Lemmas.LinearSum
 namespace Sympde.Linear
 open E
 open Sympde.Sub
@@ -396,6 +397,98 @@ example : OpFree (add [mul [exFld, exV], mul [num 2 1, pd .x exV]]) = true := by
 example : additive 2 [exV] (add [mul [exFld, exV], mul [num 2 1, pd .x exV]]) = .ok true ∧
     homogeneous 2 [exV] (add [mul [exFld, exV], mul [num 2 1, pd .x exV]]) = .ok true := by decide
 
+/-! ### sums of integrals: one verdict per integral
+
+  `is_linear_expression` compares the whole `IntAdd`; integrals over different regions are different
+  atoms of that comparison, so the test holds iff it holds for the integrand of every region
+  (`isLinear` = conjunction over the integrals).  A violation on `Ω` cannot be compensated on `Γ`. -/
+
+/-- **verdict_is_conjunction** — the verdict on a sum of integrals is positive iff the verdict on
+    every integral taken alone is (no hypothesis on the integrands). -/
+theorem verdict_is_conjunction (d : Nat) (args : List E) (ints : List (String × E)) :
+    isLinear d args ints = .ok true ↔ ∀ p ∈ ints, isLinear d args [p] = .ok true :=
+  isLinear_true_iff d args ints
+
+/-- **reject_sound_any_integral** — on operator-free integrands: if ONE integral alone is rejected,
+    the sum is rejected, whatever the other integrals are. -/
+theorem reject_sound_any_integral (d : Nat) (args : List E) (ints : List (String × E))
+    (hargs : ∀ a ∈ args, isFn a = true) (hall : ∀ p ∈ ints, OpFree p.2 = true)
+    (p : String × E) (hp : p ∈ ints) (h : isLinear d args [p] = .ok false) :
+    isLinear d args ints = .ok false := by
+  obtain ⟨b, hb⟩ := isLinear_total d args ints hargs hall
+  cases b with
+  | false => exact hb
+  | true =>
+    have := (isLinear_true_iff d args ints).mp hb p hp
+    rw [h] at this
+    cases this
+
+/-- **reject_sound_cancel_across_regions** — `∫_Ω f·v + v²  +  (any other integrals, e.g.
+    ∫_Γ x·v − v²)` is rejected: the square on `Ω` is not compensated by the other regions. -/
+theorem reject_sound_cancel_across_regions (d : Nat) (v f : String) (k k' : Kind) (dom : String)
+    (rest : List (String × E)) (hrest : ∀ p ∈ rest, OpFree p.2 = true) (hne : v ≠ f) :
+    isLinear d [sf v k] ((dom, add [mul [sf f k', sf v k], pow (sf v k) (num 2 1)]) :: rest) = .ok false := by
+  have hargs : ∀ a ∈ [sf v k], isFn a = true := by intro a ha; simp at ha; subst ha; rfl
+  apply reject_of_refutation_ints (refuteRing 1) d _ _ hargs
+    (by
+      intro p hp
+      rcases List.mem_cons.mp hp with rfl | hp
+      · rfl
+      · exact hrest p hp)
+    (dom, add [mul [sf f k', sf v k], pow (sf v k) (num 2 1)]) (by simp)
+  have e1 : subst ([sf v k].zip (mulVals [sf v k])) (add [mul [sf f k', sf v k], pow (sf v k) (num 2 1)])
+      = add [mul [sf f k', mul [alpha, l0 k]], pow (mul [alpha, l0 k]) (num 2 1)] := by
+    simp [mulVals_single, subst, substList, lookup, eqb, hne]
+  have e2 : subst ([sf v k].zip (freshList "l#" [sf v k])) (add [mul [sf f k', sf v k], pow (sf v k) (num 2 1)])
+      = add [mul [sf f k', l0 k], pow (l0 k) (num 2 1)] := by
+    simp [fresh_single, subst, substList, lookup, eqb, hne]
+  simp only [e1, e2]
+  apply ne_of_evalAt (fun _ => 1)
+  simp only [denG, denGSum, denGProd, powSem, PD.intLit, alpha, l0, refute_sf, refute_cst, map_mul, map_add, map_pow,
+    map_one, evalAt_C, mul_one, one_pow, add_zero]
+  norm_num
+
+/-- **lumped_accepts_nonlinear** — counterexample for the variant that adds the integrands of all
+    the regions before testing (`isLinearLumped`): it accepts `∫_Ω f·v + v² + ∫_Γ x·v − v²`, which is
+    not linear on `Ω`; the model (and the code) rejects it. -/
+theorem lumped_accepts_nonlinear :
+    isLinearLumped 2 [exV]
+        [("Omega", add [mul [exFld, exV], pow exV (num 2 1)]),
+         ("Gamma", add [mul [sym "x", exV], mul [num (-1) 1, pow exV (num 2 1)]])] = .ok true ∧
+    isLinear 2 [exV]
+        [("Omega", add [mul [exFld, exV], pow exV (num 2 1)]),
+         ("Gamma", add [mul [sym "x", exV], mul [num (-1) 1, pow exV (num 2 1)]])] = .ok false :=
+  ⟨by decide, reject_sound_cancel_across_regions 2 "v" "f" .h1 .h1 "Omega" _
+    (by intro p hp; simp at hp; subst hp; rfl) (by decide)⟩
+
+/-! ### sums of terms inside one integrand: the integrand is tested as a whole
+
+  The two sides of the comparison are expanded (`RingEq.ringEq` normalises powers of sums and
+  products of sums), so non-linear summands that cancel do not matter: `(v+f)² − v² − f²` is
+  accepted, and `accept_sound_opfree` applies to it. -/
+
+/-- the integrand `(v + f)² − v² − f²` (three summands, each of them non-linear in `v` or constant) -/
+def exCancel : E :=
+  add [pow (add [exV, exFld]) (num 2 1), mul [num (-1) 1, pow exV (num 2 1)], mul [num (-1) 1, pow exFld (num 2 1)]]
+
+/-- **cancelling_terms_accepted** — the model accepts `(v+f)² − v² − f²` (= 2 f v); the variant that
+    tests the summands one by one (`isLinearTermwise`) rejects it. -/
+theorem cancelling_terms_accepted :
+    isLinear 2 [exV] [("Omega", exCancel)] = .ok true ∧
+    isLinearTermwise 2 [exV] [("Omega", exCancel)] = .ok false :=
+  ⟨by decide, by decide⟩
+
+/-- **cancelling_terms_linear** — and the acceptance is right: in every differential ring
+    `(v+f)² − v² − f²` is additive and homogeneous in `v` (instance of `accept_sound_opfree`). -/
+theorem cancelling_terms_linear (S : DRing K) (lg : Bool) :
+    denG S 2 lg (subst ([exV].zip (sumVals [exV])) exCancel) 0 0
+      = denG S 2 lg (subst ([exV].zip (freshList "l#" [exV])) exCancel) 0 0
+        + denG S 2 lg (subst ([exV].zip (freshList "r#" [exV])) exCancel) 0 0 ∧
+    denG S 2 lg (subst ([exV].zip (mulVals [exV])) exCancel) 0 0
+      = S.cst "alpha#" * denG S 2 lg (subst ([exV].zip (freshList "l#" [exV])) exCancel) 0 0 :=
+  accept_sound_opfree S 2 lg [exV] exCancel (by intro a ha; simp at ha; subst ha; rfl) (by decide)
+    (by decide) (by decide)
+
 /-! the fixed corpus of the harness, on the model -/
 example : isBilinear 2 [exU1, exU2] [exV1, exV2]
     [("Omega", mul [exU1, add [exU1, mul [num (-1) 1, exU2]], exV1])] = .ok false := by decide
@@ -408,5 +501,14 @@ example : isBilinear 2 [exU1, exU2] [exV1, exV2]
     = .ok true := by decide
 example : isLinearShared 2 [exU1, exU2]
     [("Omega", mul [exU1, exU2])] = .ok false := by decide
+example : isLinear 2 [exV] [("Omega", add [mul [exFld, exV], num 1 1]), ("Gamma", add [mul [sym "x", exV], num (-1) 1])]
+    = .ok false := by decide
+example : isLinear 2 [exV] [("Omega", add [mul [exV, add [exV, sym "x"]], mul [num (-1) 1, pow exV (num 2 1)]])]
+    = .ok true := by decide
+example : isBilinear 2 [exU] [exV]
+    [("Omega", add [mul [exU, exV, add [num 1 1, mul [sym "y", exV]]], mul [num (-1) 1, sym "y", exU, pow exV (num 2 1)]])]
+    = .ok true := by decide
+example : isLinearLumped 2 [exV] [("Omega", mul [exFld, exV]), ("Gamma", pow exV (num 2 1))] = .ok false := by decide
+example : isLinearTermwise 2 [exV] [("Omega", add [mul [exFld, exV], mul [sym "x", exV]])] = .ok true := by decide
 
 end Sympde.Linear
